@@ -73,6 +73,9 @@ pub fn fp_rules() -> Vec<FpRule> {
         // term cannot mention it (capture avoidance rests on the fresh names the matcher invents for uncovered slots)
         rb("sum-intro", "(add ?c ?c)", "(sum $z ?c)"),
         rb("let-abstract", "(mul ?a ?b)", "(let $z (mul (var $z) ?b) ?a)"),
+        // chains of substitutions (applied left to right; the first replacement may mention the variable replaced second)
+        rbs("let-let-flatten", "(let $x (let $y ?b ?f) ?e)", "?b[(var $y) := ?f][(var $x) := ?e]"),
+        rbs("let-sum-unroll", "(let $x (sum $y ?b) ?e)", "(add ?b[(var $y) := 0][(var $x) := ?e] ?b[(var $y) := 1][(var $x) := ?e])"),
     ]
 }
 
